@@ -19,7 +19,8 @@ Step ==
     \/ \E c \in Classes, ifs \in ArgLists :
           /\ ClassImplements(c, ifs)
           /\ act' = [op |-> "classImplements", c |-> c, ifs |-> ifs]
-    \/ \E c \in Classes, ifs \in ArgLists :
+    \/ \E c \in Classes, ifs \in ArgLists \cup {<<>>} :
+          \* (the empty list: "implements nothing, inherits nothing")
           /\ ClassImplementsOnly(c, ifs)
           /\ act' = [op |-> "classImplementsOnly", c |-> c, ifs |-> ifs]
     \/ \E c \in Classes, i \in IfaceArgs :
@@ -39,6 +40,10 @@ Step ==
           /\ WithClassProv
           /\ ClassProvides(c, ifs)
           /\ act' = [op |-> "classProvides", c |-> c, ifs |-> ifs]
+    \/ \E c \in Classes, i \in IfaceArgs :
+          /\ WithClassProv
+          /\ AlsoClassProvides(c, i)
+          /\ act' = [op |-> "alsoClassProvides", c |-> c, ifs |-> <<i>>]
     \/ \E t \in Classes, c \in Classes :
           /\ WithSuper
           /\ \E o \in Objs : ClassOf[o] = t
@@ -106,7 +111,8 @@ Unrelated ==
                         "noLongerProvides"}
               => /\ \A k \in Classes : SameC(k)
                  /\ \A p \in Objs \ {act'.o} : SameO(p))
-       /\ (act'.op \in {"classProvides", "query", "superQuery"}
+       /\ (act'.op \in {"classProvides", "alsoClassProvides", "query",
+                        "superQuery"}
               => /\ \A k \in Classes : SameC(k)
                  /\ \A p \in Objs : SameO(p))]_allvars
 
@@ -133,7 +139,8 @@ CO_Mixin == <<4, 4, 2>>
 CO_Two == <<2, 2>>
 AllOps == {"query", "classImplements", "classImplementsOnly",
            "classImplementsFirst", "directlyProvides", "alsoProvides",
-           "noLongerProvides", "classProvides", "superQuery"}
+           "noLongerProvides", "classProvides", "alsoClassProvides",
+           "superQuery"}
 ClassOps == {"query", "classImplements", "classImplementsOnly",
              "classImplementsFirst", "superQuery"}
 Args1 == {<<i>> : i \in 1..3}
